@@ -18,6 +18,8 @@ case "$ID" in
 esac
 SAN="none"; [ "$ID" = "C01" ] && SAN="address"
 mkdir -p "$ROOT/logs" "$ROOT/replays/found"
+# the stable harness re-validates every fuzz finding: make sure it is built from the current tree
+( unset RUSTFLAGS; python3 "$ROOT/tools/gen_shadow.py" >/dev/null && cd "$ROOT/harness" && cargo build --release --offline ) >"$ROOT/logs/fuzz-stable-build-$ID.log" 2>&1 || { echo "INCONCLUSIVE: harness build failed" >&2; exit 2; }
 cp "$ROOT/harness/Cargo.lock" "$FUZZ/Cargo.lock" 2>/dev/null || true
 ( cd "$FUZZ" && cargo +nightly fuzz build -O -s "$SAN" --target-dir "$FUZZ/target-$SAN" ) >"$ROOT/logs/fuzz-build-$ID.log" 2>&1 || { echo "INCONCLUSIVE: fuzz build failed (see logs/fuzz-build-$ID.log)" >&2; tail -n 20 "$ROOT/logs/fuzz-build-$ID.log" >&2; exit 2; }
 STAMP="$ROOT/logs/fuzz-stamp-$ID"; touch "$STAMP"
